@@ -3,7 +3,7 @@ CONSTANTS
   Capacity = 1
   Getters = {"g1", "g2", "g3"}
   Rounds = 2
-  M_HeartbeatLives = TRUE
+  M_HeartbeatLives = FALSE
   RecordGate = FALSE
   HeartbeatWhenAvailable = TRUE
 INVARIANTS Bounded CounterSound MutexOK NoWedge
